@@ -334,6 +334,18 @@ fn get_node_tag<'i>(
     }
 }
 
+/// An index of `PEEK[a..b]` as `i32`, with a located error instead of a panic on overflow.
+fn peek_index(pair: &Pair<'_, Rule>) -> Result<i32, Vec<Error<Rule>>> {
+    pair.as_str().parse().map_err(|_| {
+        vec![Error::new_from_span(
+            ErrorVariant::CustomError {
+                message: "PEEK index cannot overflow i32".to_owned(),
+            },
+            pair.as_span(),
+        )]
+    })
+}
+
 fn consume_expr<'i>(
     pairs: Peekable<Pairs<'i, Rule>>,
     pratt: &PrattParser<Rule>,
@@ -421,7 +433,7 @@ fn consume_expr<'i>(
                             Rule::range_operator => 0,
                             Rule::integer => {
                                 pairs.next().unwrap(); // ..
-                                pair_start.as_str().parse().unwrap()
+                                peek_index(&pair_start)?
                             }
                             _ => unreachable!("peek start"),
                         };
@@ -430,7 +442,7 @@ fn consume_expr<'i>(
                             Rule::closing_brack => None,
                             Rule::integer => {
                                 pairs.next().unwrap(); // }
-                                Some(pair_end.as_str().parse().unwrap())
+                                Some(peek_index(&pair_end)?)
                             }
                             _ => unreachable!("peek end"),
                         };
